@@ -545,12 +545,19 @@ def cppcheck_xml(args, cwd, timeout=900):
     env.pop("CPPCHECK_HOME", None)
     env["LC_ALL"] = "C"
     errf = os.path.join(cwd, "stderr.xml")
-    with open(errf, "wb") as ef:
-        try:
-            subprocess.run([build.cppcheck("plain"), "--xml"] + list(args), cwd=cwd, env=env,
-                           stdout=subprocess.DEVNULL, stderr=ef, timeout=timeout)
-        except subprocess.TimeoutExpired:
-            return None
+    for attempt in range(60):
+        with open(errf, "wb") as ef:
+            try:
+                subprocess.run([build.cppcheck("plain"), "--xml"] + list(args), cwd=cwd, env=env,
+                               stdout=subprocess.DEVNULL, stderr=ef, timeout=timeout)
+                break
+            except subprocess.TimeoutExpired:
+                return None
+            except OSError:         # binary being relinked by a concurrent build of the same variant
+                import time
+                time.sleep(1)
+    else:
+        return None
     try:
         return run.parse_xml(open(errf, "rb").read())
     except Exception:
@@ -583,10 +590,11 @@ def prog_from_spec(spec):
 
 
 def specs(tier):
-    out = [("g", [b["name"] for b in combo], lang, name) for combo, lang, name in corpus_generated(tier)]
+    out = []
     for f in sorted(glob.glob("/repo/samples/*/bad.c*") + glob.glob("/repo/samples/*/good.c*")):
         lang = "cpp" if f.endswith(".cpp") else "c"
         out.append(("s", f, lang, "s_" + f.split("/")[-2] + "_" + os.path.basename(f)))
+    out += [("g", [b["name"] for b in combo], lang, name) for combo, lang, name in corpus_generated(tier)]
     return out
 
 
@@ -610,7 +618,7 @@ def isolated(p, rw, al):
 def work(job):
     """one batch: build all variant files of some programs, analyse them in ONE run, compare. -> plain data"""
     import time
-    speclist, fams, deadline = job
+    speclist, fams, deadline, knownkeys = job
     if time.time() > deadline:
         return None
     progs = []
@@ -634,7 +642,7 @@ def work(job):
         return out
     if "?" in res:
         out["problems"].append(("harness:unattributed-finding", repr(res["?"][:2]), {"f": res["?"][:5]}))
-    confirmed = {}
+    confirmed = {k: True for k in knownkeys}
     for pi, (spec, p, vs) in enumerate(progs):
         if p is None:
             out["counters"]["programs_not_lexable_skipped"] += 1
@@ -688,7 +696,7 @@ def work(job):
 
 def main(tier, replay=None):
     import multiprocessing, time
-    ctx = Ctx("C05", tier, "model_checking", 170 if tier == "quick" else 1700, replay)
+    ctx = Ctx("C05", tier, "exploration", 170 if tier == "quick" else 1700, replay)
     build.build("plain")
     if replay:
         a = replay["artefact"]
@@ -711,6 +719,7 @@ def main(tier, replay=None):
     lim = int(os.environ.get("C05_LIMIT", "0"))
     if lim:
         sp = sp[:lim]
+    knownkeys = [k["key"] for k in ctx.known if k.get("status") == "known"]
     jobs, cur, n = [], [], 0
     for s in sp:
         try:
@@ -720,10 +729,10 @@ def main(tier, replay=None):
             pass
         cur.append(s)
         if n >= BATCH:
-            jobs.append((cur, fams, ctx.deadline))
+            jobs.append((cur, fams, ctx.deadline, knownkeys))
             cur, n = [], 0
     if cur:
-        jobs.append((cur, fams, ctx.deadline))
+        jobs.append((cur, fams, ctx.deadline, knownkeys))
     famcount, ids = collections.Counter(), collections.Counter()
     with multiprocessing.Pool(int(os.environ.get("VERIF_JOBS", "0")) or min(16, os.cpu_count() or 4)) as pool:
         for res in pool.imap(work, jobs):
